@@ -505,8 +505,8 @@ fn case_from_json(v: &Value) -> Case {
 
 pub fn run(args: &Args) -> i32 {
     let thorough = args.tier == Tier::Thorough;
-    let n = if thorough { 5 } else { 4 };
-    let bound = if thorough { 2 } else { 1 };
+    let n = if thorough { 6 } else { 5 };
+    let bound = if thorough { 3 } else { 2 };
     let mut rep = Report::new("C03", args.tier, args.seed, "model_checking");
     rep.exhaustive = true;
     rep.rule = format!(
@@ -522,7 +522,7 @@ pub fn run(args: &Args) -> i32 {
         for seq in sequences(role, n) {
             for end in [End::Fin, End::Open, End::Reset(0x10c)] {
                 for mode in [Mode::Whole, Mode::PerFrame, Mode::PerByte, Mode::Explore] {
-                    if mode == Mode::Explore && seq.len() > if thorough { 4 } else { 3 } {
+                    if mode == Mode::Explore && seq.len() > if thorough { 5 } else { 4 } {
                         continue;
                     }
                     cases.push(Case { role, seq: seq.clone(), end, mode });
